@@ -28,7 +28,7 @@ func init() {
 			return bs
 		},
 		Gates: func(tier string) map[string]int64 {
-			return map[string]int64{"histories": 300, "register_ok": 1500, "register_conflict:path": 100, "register_conflict:package-vs-declaration": 50, "register_conflict:declaration-name": 200, "lookups_found": 50000, "lookups_notfound": 20000,
+			return map[string]int64{"histories": 300, "register_ok": 1500, "register_conflict:path": 100, "register_conflict:package-vs-declaration": 50, "conflict_packages_through_nested_declarations": 60, "register_conflict:declaration-name": 200, "lookups_found": 50000, "lookups_notfound": 20000,
 				"types_register_ok": 2000, "types_conflict:name": 100, "types_conflict:extension-number": 20, "types_conflict_distinct_name_same_number": 20, "types_lookups": 20000, "conflict_files": 500}
 		},
 		Run: runC33,
